@@ -261,6 +261,11 @@ func (h *SexpHash) TypeCheckField(key Sexp, val Sexp) error {
 		keySym = ks
 		wasSym = true
 	default:
+		// the fields of a declared struct are named by symbols: any
+		// other key would be an undeclared field.
+		if rt := h.declaredStruct(); rt != nil {
+			return fmt.Errorf("%s has no field '%s' [err 2]", rt.UserStructDefn.Name, key.SexpString(nil))
+		}
 		return KeyNotSymbol
 	}
 	p := h.GoStructFactory
@@ -339,6 +344,21 @@ func (h *SexpHash) TypeCheckField(key Sexp, val Sexp) error {
 		}
 	}
 done:
+	return nil
+}
+
+// declaredStruct returns the registered type whose (struct ...) declaration
+// governs this hash, or nil for plain hashes and undeclared record types.
+func (h *SexpHash) declaredStruct() *RegisteredType {
+	if h.TypeName == "hash" || h.TypeName == "field" {
+		return nil
+	}
+	if p := h.GoStructFactory; p != nil && p.UserStructDefn != nil {
+		return p
+	}
+	if rt := GoStructRegistry.Lookup(h.TypeName); rt != nil && rt.UserStructDefn != nil {
+		return rt
+	}
 	return nil
 }
 
